@@ -242,8 +242,12 @@ CLAIMS = {
         text="Decides two structural clauses: alpha_max helpers exclude zero weights "
              "before dividing (guarded division), and every solver that fits an intercept "
              "includes |intercept gradient| in its tolerance test, so it cannot exit at w=0 "
-             "with a non-optimal intercept. The value of alpha_max relative to the penalty's "
-             "kink threshold is decided in the algebraic tier when available.",
+             "with a non-optimal intercept. alpha_max methods of the penalties equal max_j |g_j| / k_j "
+             "with alpha * k_j the kink threshold of their own value(); the group helper "
+             "_alpha_max_group_lasso and the default grid of SqrtLasso.path equal the value "
+             "derived from their datafit's gradient accessor at the null model and the slope of "
+             "their penalty's value() at the zero block (small concrete design, zero weights "
+             "included).",
         design_ref="DESIGN.md §3.5 R-THR, §4 C16",
         note="That a fit slightly below alpha_max is non-zero is numerical.",
         technique="guarded-division dominator rule + certificate slice rule",
